@@ -140,6 +140,19 @@ def Cur.isEmpty (d : List Nat) (c : Cur) : Bool := decide (c.pos ≥ d.length)
 /-- `Cursor::finish`: the single final bounds check -/
 def Cur.finish (d : List Nat) (c : Cur) : Bool := decide (c.pos ≤ d.length)
 
+/-! ## `ComputedArray` (read-fonts/src/array.rs): items of a size computed at run time -/
+
+/-- `ComputedArray::new`: `len = data.len().checked_div(item_len).unwrap_or(0)` -/
+def compLen (dataLen itemLen : Nat) : Nat := if itemLen = 0 then 0 else dataLen / itemLen
+
+/-- `ComputedArray::get(idx)`: the start offset of the item handed to `T::read_with_args`, `none` =
+`Err(OutOfBounds)`: `idx >= len` (/repo fix 504de7e), `idx.checked_mul(item_len)`, `data.split_off`. -/
+def compGet (dataLen itemLen idx : Nat) : Option Nat :=
+  if idx ≥ compLen dataLen itemLen then none
+  else match checkedMul idx itemLen with
+    | none => none
+    | some off => if off ≤ dataLen then some off else none
+
 /-- one scripted cursor operation (driver / harness protocol) -/
 inductive Op where
   | read (sz : Nat)
